@@ -83,6 +83,8 @@ def run(ctx):
     res.rule("EVENTS", n)
     # pyvis_render_customizable forwards to make_pyvis_net (FWD)
     fwd(ctx, h, rec, res)
+    from sa import eff
+    eff.check_fwd(ctx, [("edgegraph.output.pyvis.pyvis_render_customizable", "make_pyvis_net", {"show_buttons_filter": None})])
     common.vacuity(res, "EVENTS", 80)
     res.analysed = common.analysed(ctx, [FN, "edgegraph.output.pyvis.pyvis_render_customizable"])
     res.explanation = "For every class of link position/kind the calls made into pyvis are exactly the specified node and edge events."
